@@ -14,6 +14,11 @@ def setup(db, rng):
     r.append(db.sql("CREATE TABLE t2(x int, y varchar(255));"))
     r.append(db.cmd("mktable t3 p:i:n,q:s:n"))
     r.append(db.cmd("mktable t4 k:i:b,v:i:n"))
+    # two tables whose rows fill several temporary pages of a hash join, whichever side the planner builds from
+    r.append(db.cmd("mktable t6 a:i:n,b:i:n")); r.append(db.cmd("mktable t7 c:i:n,d:i:n"))
+    for i in range(900):
+        r.append(db.cmd("rawinsert t6 i:%d i:%d" % (i, i * 3)))
+        r.append(db.cmd("rawinsert t7 i:%d i:%d" % (i + 450, i * 5)))
     # join keys that are NULL in every row (n1) and in some rows (n2): a hash join's build side may hash nothing at all
     r.append(db.cmd("mktable n1 a:i:n,b:i:n")); r.append(db.cmd("mktable n2 a:i:n,b:i:n"))
     for i in range(12):
@@ -43,6 +48,8 @@ def statements(rng, big):
         "SELECT t1.c, t3.q FROM t1 JOIN t3 ON t1.a = t3.p;",
         "SELECT t3.q, t4.v FROM t3 JOIN t4 ON t3.p = t4.k WHERE t4.v >= %d;" % rng.randrange(40),
         "SELECT t1.a, t2.x FROM t1, t2 WHERE t1.c = %d;" % rng.randrange(40),
+        "SELECT t6.b, t7.d FROM t6 JOIN t7 ON t6.a = t7.c;",
+        "SELECT t7.d, t6.b FROM t7 JOIN t6 ON t7.c = t6.a WHERE t6.b >= %d;" % rng.randrange(2000),
         "SELECT n1.b, t2.y FROM n1 JOIN t2 ON n1.a = t2.x;",
         "SELECT t2.y, n1.b FROM t2 JOIN n1 ON t2.x = n1.a;",
         "SELECT n2.b, t2.y FROM n2 JOIN t2 ON n2.a = t2.x;",
